@@ -754,14 +754,16 @@ impl LanguageHooks for StdHooks06 {
 impl InstrFormat for StdHooks06 {
     fn instr_header_size(&self) -> usize { 8 }
 
-    fn read_instr(&self, f: &mut BinReader, _: &dyn Emitter) -> ReadResult<ReadInstr> {
+    fn read_instr(&self, f: &mut BinReader, emitter: &dyn Emitter) -> ReadResult<ReadInstr> {
         let time = f.read_i32()?;
         let opcode = f.read_i16()?;
         let argsize = f.read_u16()?;
         if opcode == -1 {
             return Ok(ReadInstr::Terminal)
         }
-        assert_eq!(argsize, 12);  // FIXME make error if < 12, warning if > 12
+        if argsize != 12 {
+            return Err(emitter.as_sized().emit(error!("bad instruction argsize ({} != 12)", argsize)));
+        }
 
         let args_blob = f.read_byte_vec(12)?;
         Ok(ReadInstr::Instr(RawInstr { time, opcode: opcode as _, param_mask: 0, args_blob, ..RawInstr::DEFAULTS }))
